@@ -89,10 +89,10 @@ class Ctx:
         self.log("built maindrv.test in %.1fs" % (time.time() - t))
         return out
 
-    def run_driver(self, binary, test, outdir, extra=None, timeout=1800):
+    def run_driver(self, binary, test, outdir, extra=None, timeout=1800, race_reports=None):
         """Runs one driver test function of the harness binary; a failing or dead driver
         is an infrastructure error (the driver itself never judges)."""
-        env = self.env({"VERIF_OUT": outdir})
+        env = self.env({"VERIF_OUT": outdir, "GORACE": "halt_on_error=0"})
         if extra:
             env.update({k: str(v) for k, v in extra.items()})
         t = time.time()
@@ -101,6 +101,14 @@ class Ctx:
                                cwd=outdir, env=env, capture_output=True, text=True, timeout=timeout + 30)
         except subprocess.TimeoutExpired:
             raise Infra("driver %s timed out" % test)
+        races = (r.stdout + r.stderr).count("WARNING: DATA RACE")
+        if races and race_reports is not None:
+            # the race detector fired inside the code under test: not a dead driver but an observation
+            txt = r.stdout + r.stderr
+            i = txt.find("WARNING: DATA RACE")
+            race_reports.append(txt[i:i + 3500])
+            self.log("driver %s: %d data race report(s)" % (test, races))
+            return r.stdout
         if r.returncode != 0 or ("--- PASS: " + test) not in r.stdout:
             raise Infra("driver %s failed (exit %d):\n%s\n%s" % (test, r.returncode, r.stdout[-3000:], r.stderr[-3000:]))
         self.log("driver %s ran in %.1fs" % (test, time.time() - t))
